@@ -153,7 +153,17 @@ impl PointCloud {
             }
             let ns = n.lookup_prefix(n.tag_name().namespace().unwrap_or_default());
             let tag = n.tag_name().name();
-            let name = RecordName::from_namespace_and_tag_name(ns, tag)?;
+            let root_ns = n.document().root_element().tag_name().namespace();
+            let name = if n.tag_name().namespace() == root_ns {
+                RecordName::from_namespace_and_tag_name(ns, tag)?
+            } else {
+                // Attributes from extension namespaces are never standard attributes,
+                // even if they use the same name
+                RecordName::Unknown {
+                    namespace: ns.unwrap_or_default().to_owned(),
+                    name: tag.to_owned(),
+                }
+            };
             let data_type = RecordDataType::from_node(&n)?;
             prototype.push(Record { name, data_type });
         }
